@@ -342,6 +342,28 @@ func (p *Pruner) seedFloor() error {
 	return p.sampleHeight()
 }
 
+// refreshStaleSample makes sure the cached wallclock floor still describes the
+// chain before it is used for a prune. The cache asserts that every block below
+// latestSampledHeight is older than minAge; the ticker only ever searches upwards
+// from it. A reorg that reverts the head below the cache and brings in other,
+// younger blocks breaks that assertion until the next tick, and the pruner would
+// delete those blocks. Block timestamps never decrease, so the assertion holds
+// exactly when the block right below the cache is still there and still old;
+// otherwise the floor is sampled again from the oldest retained block.
+func (p *Pruner) refreshStaleSample() error {
+	if p.minAge == 0 || p.latestSampledHeight == 0 {
+		return nil
+	}
+	timestamp, err := core.GetBlockHeaderTimestampByNumber(p.database, p.latestSampledHeight-1)
+	if err == nil && timestamp < uint64(time.Now().Add(-p.minAge).Unix()) {
+		return nil
+	}
+	if err != nil && !errors.Is(err, db.ErrKeyNotFound) {
+		return fmt.Errorf("checking the minimum-age floor: %w", err)
+	}
+	return p.seedFloor()
+}
+
 // applyTimeFloor returns the lower of standardFloor and the wallclock floor,
 // since a smaller oldestBlockToKeep retains more blocks.
 func (p *Pruner) applyTimeFloor(standardFloor uint64) uint64 {
@@ -386,6 +408,10 @@ func (p *Pruner) onNewBlock(ctx context.Context, block *core.Block) error {
 	}
 	p.pendingL2Heads = 0
 
+	if err := p.refreshStaleSample(); err != nil {
+		return err
+	}
+
 	standardFloor := block.Number - p.numRetainedBlocks
 	// Skip the wallclock floor during deep catch-up: an ancient on-chain
 	// timestamp means our sample reflects sync-recency, not wallclock-recency.
@@ -411,6 +437,10 @@ func (p *Pruner) onNewL1Head(ctx context.Context, l1Head *core.L1Head) error {
 		return nil
 	}
 	p.pendingL2Heads = 0
+
+	if err := p.refreshStaleSample(); err != nil {
+		return err
+	}
 
 	oldestBlockToKeep := p.applyTimeFloor(l1Head.BlockNumber - p.numRetainedBlocks)
 
